@@ -83,10 +83,19 @@ theorem Inv.step {s : St} (h : Inv s) (e : Ev) (he : e ≠ .delete) : Inv (step 
   cases e with
   | delete => exact absurd rfl he
   | other =>
+    have hmem : otherMem s = s.db := by
+      unfold otherMem
+      cases hf : s.file with
+      | none => rfl
+      | some f =>
+        dsimp only
+        split
+        · rename_i hfr; exact h.fresh f hf hfr
+        · rfl
     simp only [CacheSync.step]
     refine ⟨⟨t0, h0, by dsimp only; omega⟩, ⟨t1, h1, by dsimp only; omega⟩, ?_, ?_, ?_, ?_, ?_, by dsimp only; omega⟩
     · intro f hf; simp at hf; subst hf; simp
-    · intro f hf _; simp at hf; subst hf; rfl
+    · intro f hf _; simp at hf; subst hf; dsimp only; rw [hmem]
     · intro f hf hs; simp at hf; subst hf; dsimp only at hs; omega
     · intro hs; simp [inSync, h0] at hs; omega
     · intro hs; simp [inSync, h1] at hs; omega
@@ -219,12 +228,45 @@ theorem loadGate_inv {s : St} (h : Start s) (sysOk readLate : Bool) (f : File) (
   have e0 : load true sysOk s false = { s with i0 := ⟨some f.mtime, f.content⟩ } := by
     simp [load, fresh, hf, St.setInst, hfr]
   rw [e0]
-  simp only [loadGate, hf, step]
+  have hcont := h.safe f hf hfr
+  simp only [loadGate, hf, step, otherMem, hfr, if_true, hcont]
   refine ⟨⟨f.mtime, rfl, by dsimp only; omega⟩, ⟨f.mtime, by simp, by dsimp only; omega⟩, ?_, ?_, ?_, ?_, ?_, by dsimp only; omega⟩
   · intro f' h'; simp at h'; subst h'; dsimp only; omega
   · intro f' h' _; simp at h'; subst h'; rfl
   · intro f' h' hs; simp at h'; subst h'; dsimp only at hs; omega
   · intro hs; simp [inSync] at hs; omega
+  · intro hs; simp [inSync] at hs; omega
+
+/-- a rebuilding constructor with another writer inside (repaired rule): the other writer's file stays, instance 0
+knows it is behind, instance 1 reads the complete file -/
+theorem rebuildGate_inv {s : St} (h : Start s) (hstale : ∀ f, s.file = some f → f.mtime < s.dbTime) :
+    Inv (load true false (rebuildGate true s) true) := by
+  have hc := h.clock
+  have hmem : otherMem s = s.db := by
+    unfold otherMem
+    cases hf : s.file with
+    | none => rfl
+    | some f =>
+      dsimp only
+      have := hstale f hf
+      split
+      · omega
+      · rfl
+  have ht0 : (s.file.map (·.mtime)).getD 0 < s.now := by
+    cases hf : s.file with
+    | none => simp; omega
+    | some f => simpa using h.flt f hf
+  have e : load true false (rebuildGate true s) true =
+      { s with db := s.db ++ [s.db.length], dbTime := s.now, file := some ⟨s.now + 1, s.db ++ [s.db.length]⟩,
+               now := s.now + 2, i0 := ⟨some ((s.file.map (·.mtime)).getD 0), s.db⟩,
+               i1 := ⟨some (s.now + 1), s.db ++ [s.db.length]⟩ } := by
+    simp [rebuildGate, step, hmem, load, fresh, St.setInst]
+  rw [e]
+  refine ⟨⟨_, rfl, by dsimp only; omega⟩, ⟨s.now + 1, rfl, by dsimp only; omega⟩, ?_, ?_, ?_, ?_, fun _ => rfl,
+    by dsimp only; omega⟩
+  · intro f' h'; simp at h'; subst h'; dsimp only; omega
+  · intro f' h' _; simp at h'; subst h'; rfl
+  · intro f' h' hs; simp at h'; subst h'; dsimp only at hs; omega
   · intro hs; simp [inSync] at hs; omega
 
 end EupsModel.CacheSync
